@@ -348,7 +348,7 @@ pub fn prop() -> Prop<CrashCase> {
             "workload is single threaded with merge policy never, so the recorded call order is the program order",
         ],
         needs_shim: true,
-        budget: |t| t.pick(4800, 60000),
+        budget: |t| t.pick(9600, 60000),
         shards: |_| 16,
         strategy,
         exec,
